@@ -16,6 +16,14 @@ facts from the trace lines of c13_run.py.  Timing ties are accepted either way.
   O6 shield         every blocking operation inside ignore_cancellation completes; the shielded coroutine ends normally
   O7 external       after an external cancel() (not absorbed by a racing scope catch / user swallow) no later unshielded
                     blocking operation of the task completes
+  O8 group cancel   the same for the one-shot cancellation a task group sends to its host task when the first of its
+                    children fails: no unshielded blocking operation of the group's body started after it completes
+
+Operations that fail (`fwait` of a harness future resolved with FutError, `join` of a failing child, `fail`) end with
+`err` / class `ferr`: a shielded coroutine that ends with the error of what it awaited did run to completion (O6
+accepts `sout … ferr`); an operation that ends with its own error is not counted as "completed" by O1/O7/O8 (only
+`ret` is).  `join` of a child that was itself cancelled raises CancelledError without any request on the host
+(`icancel`): not an interruption of the shield.
 """
 from __future__ import annotations
 
@@ -43,7 +51,7 @@ class Static:
                 self._walk(kids, [sid] + scopes, sh, task)
             elif op == "shield":
                 self._walk(kids, scopes, True, task)
-            elif op == "try":
+            elif op in ("try", "trye"):
                 self._walk(kids, scopes, sh, task)
             elif op == "group":
                 self._walk(kids, scopes, sh, task)
@@ -71,7 +79,7 @@ def judge(case: dict, real: list[str]) -> str | None:
     has_group = any(w[0] == "group" for w in W)
     done_at: dict[int, str] = {}          # blocking stmt id -> ret | exc
     for p in lines:
-        if p[0] in ("ret", "exc"):
+        if p[0] in ("ret", "exc", "err", "icancel"):
             done_at[int(p[1])] = p[0]
 
     enter_t: dict[int, int] = {}
@@ -81,6 +89,25 @@ def judge(case: dict, real: list[str]) -> str | None:
     uncaught_exit_seen = False            # a cancelled scope was left without a CancelledError reaching __exit__
     ext_seen = 0                          # external cancels counted by the (main) task so far
     ext_pos: list[int] = []
+    own_errors: set[str] = set()          # classes of the errors operations of the program ended with by themselves
+    inner_cancel = False                  # the task awaited something that ended cancelled by itself (join of an aborted child)
+    grp_pos: list[tuple[int, int]] = []   # (trace position, group id): first failing child of a group of the main task
+    grp_failed: set[int] = set()
+    grp_open: set[int] = set()
+    parent_of: dict[int, int] = {}        # child stmt id -> its group stmt id
+    for gsid, w in enumerate(W):
+        if w[0] == "group":
+            depth = 0
+            for j in range(gsid + 1, len(W)):
+                o = W[j][0]
+                if o == "endgroup" and depth == 0:
+                    break
+                if o == "child" and depth == 0:
+                    parent_of[j] = gsid
+                if o in c13_run.OPEN:
+                    depth += 1
+                elif o in c13_run.OPEN.values():
+                    depth -= 1
     INF = float("inf")
 
     for pos, p in enumerate(lines):
@@ -91,6 +118,22 @@ def judge(case: dict, real: list[str]) -> str | None:
                 ext_pos.append(pos)
         elif k == "swallow":
             swallow_seen = True
+        elif k == "icancel" or (k == "imm" and p[3] == "cancel"):
+            inner_cancel = True
+        elif k == "err":
+            own_errors.add(p[3])
+        elif k == "imm" and p[3] == "err":
+            own_errors.add("*")
+        elif k == "gin":
+            grp_open.add(int(p[1]))
+        elif k == "gout":
+            grp_open.discard(int(p[1]))
+        elif k == "cout":
+            g = parent_of.get(int(p[1]))
+            if g is not None and p[3] not in ("ok", "cancel") and g not in grp_failed:
+                grp_failed.add(g)
+                if st.task[g] == -1 and g in grp_open:
+                    grp_pos.append((pos, g))
         elif k == "enter":
             sid = int(p[1])
             enter_t[sid] = int(p[2])
@@ -157,7 +200,9 @@ def judge(case: dict, real: list[str]) -> str | None:
                     return (f"O5 leftover[{how}]: after exit of scope {sid} task.cancelling()={kv['cancelling']}, "
                             f"external cancels so far={ext_seen}")
         elif k == "sout":
-            if p[3] != "ok" and not _has_group(prog, int(p[1])):
+            if p[3] == "ferr" or p[3] in own_errors or "*" in own_errors or (p[3] == "cancel" and inner_cancel):
+                pass     # the shielded coroutine ended with the error of what it awaited: it ran to completion
+            elif p[3] != "ok" and not _has_group(prog, int(p[1])):
                 return f"O6 shield: shielded coroutine {p[1]} ended with {p[3]}"
         elif k == "end":
             kv = _kv(p[3:])
@@ -187,7 +232,43 @@ def judge(case: dict, real: list[str]) -> str | None:
                 if done_at.get(sid) == "ret":
                     how = "merged" if _merged_with_redelivery(st, W, lines, pos) else "other"
                     return f"O7 external[{how}]: operation {sid} started after the external cancel() and completed"
+
+    # O8: the cancellation a task group sends to its host when a child fails is not lost either
+    for pos, g in grp_pos:
+        later = []
+        for p in lines[pos + 1:]:
+            if p[0] == "gout" and int(p[1]) == g:
+                break
+            later.append(p)
+        if any(p[0] == "swallow" or (p[0] == "exit" and "caught=1" in p) for p in later):
+            continue
+        body = _body_ids(W, g)
+        for p in later:
+            if p[0] == "blk":
+                sid = int(p[1])
+                if sid not in body or st.task[sid] != -1 or st.shielded[sid] or W[sid][0] == "syield":
+                    continue
+                if done_at.get(sid) == "ret":
+                    how = "merged" if _merged_with_redelivery(st, W, lines, pos) else "other"
+                    return (f"O8 group cancel[{how}]: operation {sid} of the body of task group {g} started after a child "
+                            f"failed (the group cancelled its host task) and completed")
     return None
+
+
+def _body_ids(W, g: int) -> set[int]:
+    """statement ids between `group` (line g) and its `endgroup`"""
+    depth = 0
+    out = set()
+    for j in range(g + 1, len(W)):
+        o = W[j][0]
+        if o == "endgroup" and depth == 0:
+            break
+        out.add(j)
+        if o in c13_run.OPEN:
+            depth += 1
+        elif o in c13_run.OPEN.values():
+            depth -= 1
+    return out
 
 
 def _merged_with_redelivery(st: Static, W, lines, pos: int) -> bool:
@@ -200,7 +281,7 @@ def _merged_with_redelivery(st: Static, W, lines, pos: int) -> bool:
     for p in lines[:pos]:
         if p[0] == "blk" and st.task[int(p[1])] == -1:
             parked = p
-        elif p[0] in ("ret", "exc") and parked is not None and p[1] == parked[1]:
+        elif p[0] in ("ret", "exc", "err", "icancel") and parked is not None and p[1] == parked[1]:
             parked = None
     if parked is None:
         return False
@@ -253,7 +334,7 @@ def key_of(why: str) -> str:
         return "leftover-cancelling,exit-without-catch"
     if why.startswith("O5 leftover[end]"):
         return "leftover-cancelling,task-end"
-    if why.startswith("O7 external[merged]"):
+    if why.startswith("O7 external[merged]") or why.startswith("O8 group cancel[merged]"):
         return "ext-cancel-lost,shielded,scope-cancel-interleaved"
     return why.split(":")[0].replace(" ", "-").replace("[", "-").replace("]", "")
 
@@ -283,6 +364,10 @@ def features(case: dict, real: list[str]) -> str | None:
             tags.add("cancelled-syield" if w == "syield" else "blk-in-cancelled")
         elif p[0] == "cin":
             tags.add("child")
+        elif p[0] == "err":
+            tags.add("op-failed")
+        elif p[0] == "cout" and p[3] not in ("ok", "cancel"):
+            tags.add("child-failed")
     if not tags or tags == {"child"}:
         return None
     return "+".join(sorted(tags))
